@@ -4,6 +4,8 @@
 # module -> harness file(s) under contracts/kani appended to that module's mirror
 KANI_FILES = {
     "random": ["random.rs"],
+    "tensor": ["libm.rs"],
+    "activation": ["activation.rs"],
 }
 
 PLAN = {
@@ -15,6 +17,16 @@ PLAN = {
         undecided_clauses=[
             "parameters never become NaN/inf for moderate magnitudes (needs IEEE value reasoning through powi/powf/sqrt/div; "
             "one Adam element over the full float domain did not finish in CBMC; Verus has no float theory)"],
+    ),
+    "C07": dict(
+        title="Activations: defined function, exact derivative, total on finite floats",
+        level="proof",
+        verus=["C07_activations.rs"],
+        kani=True,
+        undecided_clauses=[
+            "soft-max shift invariance under rounding (holds for the real-number formula exp(v_i-m)/sum, which the units establish; "
+            "floating-point (v+c)-max(v+c) need not equal v-max(v))",
+            "soft-max for vector lengths above the stated bound"],
     ),
     "C18": dict(
         title="The random generator stays in range and shuffling is a safe permutation",
@@ -46,6 +58,18 @@ MANIFEST_TEXT = {
         note="Float operators are uninterpreted (F1): totality, commutativity of + and *, x^2 == powf(x,2) == powi(x,2) assumed; "
              "the iterator chain `(0..n).for_each` around the closure body and the slot addressing are covered by Kani harnesses (bounded) "
              "or trusted; NaN-freedom clause undecided.",
+    ),
+    "C07": dict(
+        category="proof",
+        technique="Kani harnesses over all finite f32 bit patterns through the real Function::forward/backward + Verus formula contracts on the 16 closure bodies",
+        design_ref="DESIGN.md §5 C07",
+        text="Value clauses (defined function, derivative values, never NaN/inf, sigmoid in [0,1], tanh in [-1,1], shape kept) are decided "
+             "by loop-free-in-the-data Kani harnesses through the real Function::forward/backward on singleton tensors of both ranks for "
+             "every finite f32 bit pattern - complete over the element domain, with libm functions replaced by contract stubs. Verus "
+             "proves, for any element of any shape, that both rank copies of each forward/backward closure compute one documented formula "
+             "(backward = textbook derivative of forward). Soft-max is bounded in vector length.",
+        note="libm contracts (F2) assumed; F1 uninterpreted floats in Verus; derivative table is mathematics (F3); iterator chains "
+             "covered for singleton/small shapes only; soft-max bounded n<=3; shift invariance under rounding undecided.",
     ),
     "C18": dict(
         category="proof",
